@@ -36,6 +36,7 @@ class _A1:
         self.methods = self.core.methods("GroupBy")
         self.memo: Dict[Tuple[str, str], Tuple[List[Tuple[ast.AST, str, str]], Set[str]]] = {}
         self.in_progress: Set[Tuple[str, str]] = set()
+        self._dropped: Dict[int, Set[str]] = {}
 
     # ---- helpers
     def _if_of_test(self, f: Func) -> Dict[int, ast.If]:
@@ -93,7 +94,8 @@ class _A1:
                     continue
                 st = payload
                 self._stmt(f, st, aliases, index_aliases, facts, q, violations, seen_v)
-            exit_facts = set(facts) if exit_facts is None else (exit_facts & facts)
+            clean = {x for x in facts if not x.startswith("DROP:")}
+            exit_facts = set(clean) if exit_facts is None else (exit_facts & clean)
         self.in_progress.discard(key)
         out = (violations, exit_facts or set())
         self.memo[key] = out
@@ -104,6 +106,12 @@ class _A1:
 
     def _cond(self, f, t, pol, if_of, aliases, index_aliases, facts, q):
         ifn = if_of.get(id(t))
+        # a flag with a single definition stands for the test it was computed from (mask_is_boolean = ... is_bool_dtype(mask) ...)
+        if isinstance(t, ast.Name) and t.id not in f.named_params:
+            defs = [n for n in walk_no_nested(f.node) if isinstance(n, ast.Assign) and len(n.targets) == 1
+                    and isinstance(n.targets[0], ast.Name) and n.targets[0].id == t.id]
+            if len(defs) == 1:
+                t = defs[0].value
         txt = norm(t)
         # a mask that is not boolean (slice / positions) carries no length or index requirement
         if q in MASK_PARAMS and "is_bool_dtype(" in txt and pol is False and self._mentions(t, aliases):
@@ -146,6 +154,7 @@ class _A1:
                     if ".equals(" in t and any(f"{a}.index" in t for a in aliases) and isinstance(st, ast.For) \
                             and "_key_index" in norm(st.iter):
                         facts.add("IDX")
+        self._note_index_drops(st, aliases, facts)
         calls = [n for n in ast.walk(st) if isinstance(n, ast.Call)]
         # 1. validators / delegations establish facts (processed before consumption inside the same statement)
         for c in calls:
@@ -155,7 +164,12 @@ class _A1:
             if not any(self._mentions(a, aliases) for a in args):
                 continue
             if short == MUTUAL:
-                if isinstance(st, ast.Assign):
+                # the common index is only as good as the objects it was computed from: if (elements of) the list handed
+                # to the mutual validator were replaced by bare arrays before (an index-dropping conversion), the
+                # caller's pandas index was never looked at
+                given = {n.id for a in args for n in ast.walk(a) if isinstance(n, ast.Name)}
+                weak = any(("DROP:" + g) in facts for g in given)
+                if isinstance(st, ast.Assign) and not weak:
                     for t in st.targets:
                         for n in ast.walk(t):
                             if isinstance(n, ast.Name):
@@ -226,7 +240,9 @@ class _A1:
                     and n.value.id in aliases and n.value.id == q:
                 self._require(f, n, {"LEN", "IDX"}, facts, q, violations, seen_v, f"positional take {norm(n)}")
         # aliases: only through conversions / inspections / structural re-packing
-        if isinstance(st, ast.Assign) and self._mentions(st.value, aliases) and self._structural(st.value):
+        is_mutual = isinstance(st, ast.Assign) and isinstance(st.value, ast.Call) and \
+            (call_name(st.value) or norm(st.value.func)).split(".")[-1] == MUTUAL
+        if isinstance(st, ast.Assign) and self._mentions(st.value, aliases) and self._structural(st.value) and not is_mutual:
             for t in st.targets:
                 for n in ast.walk(t):
                     if isinstance(n, ast.Name) and isinstance(n.ctx, ast.Store) and "name" not in n.id \
@@ -248,6 +264,36 @@ class _A1:
             for n in ast.walk(st.target):
                 if isinstance(n, ast.Name):
                     aliases.add(n.id)
+
+    INDEX_DROPPING = {"_convert_timestamp_to_tz_unaware", "_val_to_numpy", "asarray", "asanyarray", "to_numpy", "array"}
+
+    def _note_index_drops(self, st, aliases, facts):
+        """names of list aliases whose elements were (possibly) replaced by index-free arrays on this path"""
+        class _D:
+            """view of the DROP:<name> markers kept inside the path's fact set (so that they live and die with the path)"""
+            def __contains__(self_, name):
+                return ("DROP:" + name) in facts
+            def add(self_, name):
+                facts.add("DROP:" + name)
+        dropped = _D()
+        for n in ast.walk(st):
+            if isinstance(n, ast.Assign):
+                tg = []
+                for t in n.targets:
+                    tg.extend(t.elts if isinstance(t, (ast.Tuple, ast.List)) else [t])
+                conv = any(isinstance(c, ast.Call) and (call_name(c) or norm(c.func)).split(".")[-1] in self.INDEX_DROPPING
+                           for c in ast.walk(n.value))
+                for t in tg:
+                    if conv and isinstance(t, ast.Subscript) and isinstance(t.value, ast.Name) and t.value.id in aliases:
+                        dropped.add(t.value.id)
+                    # plain aliasing after the drop:  to_check = value_list   (a copy taken BEFORE the drop is a new name
+                    # assigned earlier on the path and is not affected)
+                    if isinstance(t, ast.Name) and isinstance(n.value, ast.Name) and n.value.id in dropped:
+                        dropped.add(t.id)
+                    if isinstance(t, ast.Name) and isinstance(n.value, (ast.List, ast.Tuple)) and any(
+                            isinstance(e, ast.Starred) and isinstance(e.value, ast.Name) and e.value.id in dropped
+                            for e in n.value.elts):
+                        dropped.add(t.id)
 
     def _structural(self, e: ast.AST) -> bool:
         # scalar attributes of a slice / array (start, stop, step, dtype, shape ...) are not views of the rows
@@ -375,6 +421,29 @@ def _leaf_validator_checks(repo: Repo, a: "_A1", res: RuleResult):
                     f"with the group keys for {q!r} on every path that returns normally")
         else:
             res.ok(pre, pre.node, construct, "length and pandas index compared with the keys (raise on mismatch) on every normal exit")
+    # 1b. which masks count as boolean (and are therefore validated): pandas / NumPy booleans via is_bool_dtype AND polars
+    #     booleans (pd.api.types.is_bool_dtype(pl.Series) is False: a polars mask would otherwise be taken for positions)
+    tests = []
+    for n in walk_no_nested(pre.node):
+        if isinstance(n, ast.If):
+            t = n.test
+            if isinstance(t, ast.Name):
+                defs = [d for d in walk_no_nested(pre.node) if isinstance(d, ast.Assign) and len(d.targets) == 1
+                        and isinstance(d.targets[0], ast.Name) and d.targets[0].id == t.id]
+                if len(defs) == 1:
+                    t = defs[0].value
+            if "is_bool_dtype" in norm(t):
+                tests.append((n, t))
+    for n, t in tests:
+        txt = norm(t)
+        construct = "_preprocess_arguments: boolean-mask test covers polars"
+        if "pl.Boolean" in txt or "polars.Boolean" in txt:
+            res.ok(pre, n, construct, "is_bool_dtype(mask) or a polars Boolean Series")
+        else:
+            res.bad(pre, n, construct,
+                    f"the test that decides whether a mask is boolean (and must be validated) is {txt[:80]}: "
+                    f"pd.api.types.is_bool_dtype is False for a polars boolean Series, so a polars mask of the wrong length is "
+                    f"classified as positions and escapes the length / index validation")
     # 2. mutual validation: more than one distinct length -> raise; two different indexes -> raise
     mv = repo.func(CORE, MUTUAL)
     lens = _len_derived_names(mv)
